@@ -2,7 +2,9 @@
 Decides: (a) every in-memory change of term/vote is followed by a durable save_hard_state before the
 node replies or returns to the event loop (Raft: 'persist before responding'), (b) hard_state is
 written only inside SharedState, (c) every update_current_term(x) is guarded by x > / >= current term,
-(d) the initial role is built from the hard state loaded from storage."""
+(d) the initial role is built from the hard state loaded from storage. (e) at every production call of ElectionCore::handle_vote_request the vote decision is given the role's recorded vote
+(voted_for()) and current term.
+"""
 from .common import *
 
 EXPLANATION = __doc__
@@ -223,3 +225,39 @@ def run(ctx):
                   "%s mutates term / vote through SharedState directly, bypassing the RaftRoleState methods whose call sites the persist-before-reply (C02-a) and "
                   "monotonicity (C02-c) rules enumerate" % fk, loc(cb, cbi))
     ctx.floor("C02-b", n, 4, "direct calls of the SharedState term/vote mutators (the delegating methods)")
+
+
+# ---------------------------------------------------------------------------------------------- C02-e
+_run_c02b = run
+
+
+def run(ctx):
+    _run_c02b(ctx)
+    vote_decision_sees_the_recorded_vote(ctx)
+
+
+def vote_decision_sees_the_recorded_vote(ctx):
+    """C02-e `never grants its vote to two different candidates in the same term` starts with the vote decision being GIVEN the
+    vote the node has recorded: at every production call of ElectionCore::handle_vote_request the `voted_for_option` argument
+    derives from the role's recorded vote (RaftRoleState::voted_for() / SharedState.hard_state.voted_for) and the `current_term`
+    argument from current_term() - not from a constant, and not from a snapshot struct whose voted_for is filled with None."""
+    F = ctx.F
+    calls = [c for c in F.callers_of(lambda k: re.search(r"ElectionCore::handle_vote_request$", strip_generics(k)) is not None or re.search(r"ElectionHandler<.*>::handle_vote_request$|ElectionCore<.*>>::handle_vote_request$", k) is not None)
+             if not re.search(r"(_test|/tests?/|test_utils|mock)", F.bodies[c[1]].file or "")]
+    ctx.floor("C02-e", len(calls), 1, "production calls of ElectionCore::handle_vote_request")
+    for (croot, cbid, cbi, ct) in calls:
+        cb = F.bodies[cbid]
+        if len(ct["args"]) < 4:
+            ctx.bad("C02-e", "%s#handle_vote_request#args" % fkey(croot), "UNRECOGNISED-FORM: handle_vote_request is called with %d arguments" % len(ct["args"]), loc(cb, cbi))
+            continue
+        vs = Slice(F, cb).operand(ct["args"][3])
+        ts = Slice(F, cb).operand(ct["args"][2])
+        okv = (vs.has_call(r"RaftRoleState::voted_for$|SharedState::voted_for$") or vs.has_field("HardState", "voted_for")) and \
+            not any(x[0] == "agg" and strip_generics(x[1]).endswith("option::Option") and x[2] == "None" for x in vs.sources)
+        okt = ts.has_call(r"RaftRoleState::current_term$|SharedState::current_term$") or ts.has_field("HardState", "current_term")
+        ctx.check("C02-e", "%s#handle_vote_request#voted_for=recorded-vote" % fkey(croot), okv and okt,
+                  "the vote decision is given the role's recorded vote and current term",
+                  "handle_vote_request is not given the node's recorded vote (voted_for argument from %s; term from %s): the `already voted for someone else in this term` test "
+                  "never sees the earlier vote and the node grants a second vote to a different candidate in the same term"
+                  % (sorted(strip_generics(x[1]).split("::")[-1] if x[0] == "call" else "%s.%s" % (x[1].split("::")[-1], x[2]) for x in vs.sources if x[0] in ("call", "field"))[:4],
+                     sorted(strip_generics(x[1]).split("::")[-1] for x in ts.sources if x[0] == "call")[:3]), loc(cb, cbi))
